@@ -801,8 +801,21 @@ def _freeze_known_findings():
     common.load_known = cached
 
 
+def _drop_stale_shards():
+    """shard sources kept by an earlier run because they showed a disagreement (on whatever tree it ran against)"""
+    gen = os.path.join(common.COQ, "C19", "gen")
+    if os.path.isdir(gen):
+        for f in os.listdir(gen):
+            if f.startswith("cases_c19_") and f.endswith(".v"):
+                try:
+                    os.remove(os.path.join(gen, f))
+                except OSError:
+                    pass
+
+
 def run(ctx):
     _freeze_known_findings()
+    _drop_stale_shards()
     try:
         meta = regenerate()
         tr_err = None
@@ -942,8 +955,8 @@ def run(ctx):
     rows_meta = meta["rows"]
     ctx.coverage.update({
         "trusted_base": common.COQ_TRUSTED + [
-            "translator harness/c19_tr.py (Python ast -> Gallina: statement translation of _matmul_broadcast_shape and of the "
-            "int branch of _compute_getitem_size; abstract interpretation of every class x entry point for the guard table: "
+            "translator harness/c19_tr.py (Python ast -> Gallina: statement translation of _matmul_broadcast_shape, of the int "
+            "branch and of the tensor-index range check (with its dtype condition) of _compute_getitem_size; abstract interpretation of every class x entry point for the guard table: "
             "recognised guard patterns, MRO resolution by C3 on the AST, super() inlining; fail-closed)",
             "operator-operand translation (c19_tr.OpTr): tensor / operator expressions denoted by their shapes through the class "
             "invariants of ATTR_MODEL (_diag, diag_values, diag_shape, tensor) and the constructor shape rules of Diag / "
